@@ -36,11 +36,19 @@ type Scenario struct {
 	// (a body shared between properties reports each property's clauses under its own check).
 	OnlyKeys []string
 	NoStalls bool
+	// UnlockedWrites: struct-field writes by a thread holding no lock are scheduling points
+	UnlockedWrites bool
+	// UnlockPoints: every Mutex/RWMutex release is followed by a scheduling point
+	UnlockPoints bool
 }
 
 var scenarios []*Scenario
 
 func register(s *Scenario) { scenarios = append(scenarios, s) }
+
+// forceUnlock (development knob, inherited by the workers): run every scenario with a scheduling
+// point after each lock release.
+var forceUnlock = os.Getenv("VERIF_FORCE_UNLOCK") != ""
 
 func findScenario(name string) *Scenario {
 	for _, s := range scenarios {
@@ -134,7 +142,7 @@ func shortFunc(f string) string {
 // runOne executes the scenario once along prefix.
 func runOne(sc *Scenario, prefix []int, trace bool) *ExecReport {
 	x := &X{}
-	cfg := vs.Config{Prefix: prefix, MaxSteps: sc.MaxSteps, Trace: trace, AtomicPoints: sc.Atomic, NoPoison: sc.NoPoison, NoStalls: sc.NoStalls}
+	cfg := vs.Config{Prefix: prefix, MaxSteps: sc.MaxSteps, Trace: trace, AtomicPoints: sc.Atomic, NoPoison: sc.NoPoison, NoStalls: sc.NoStalls, UnlockedWrites: sc.UnlockedWrites, UnlockPoints: sc.UnlockPoints || forceUnlock}
 	res := vs.Run(cfg, func() { sc.Body(x) })
 	rep := &ExecReport{Points: res.Points, Res: res}
 	rep.Choices = make([]int, len(res.Points))
